@@ -34,7 +34,8 @@ RULE = ("programs of 1..4 modes and 1..6 commands over every operation class of 
         "Interferometer/GraphEmbed/BipartiteGraphEmbed/GaussianTransform/Gaussian with matrix arguments and constructor "
         "options, New/Del, sMZgate), python int / float / complex / array parameters incl. formatting stress values and "
         "values within 1e-5 of multiples of pi/12, free-parameter and measured-parameter expressions, optionally compiled "
-        "(target, shots, crop, cutoff_dim), TDMPrograms with per-bin arrays; each through blackbird, xir (string and "
+        "(target, shots, crop, cutoff_dim), sf.hbar in {2, 1, 0.5, 3}, TDMPrograms with per-bin arrays (N, shift, loop-variable "
+        "expressions); an exhaustive grid of k*pi/12 +- offsets for generate_code; each through blackbird, xir (string and "
         "file path) or generate_code; at most one 'hazard' feature (a construct that is known or likely not to be "
         "loadable) per program so that the rest of the comparison stays live; non-trivial = at least 2 commands and at "
         "least one of dagger / symbolic parameter / array parameter / select / dark_counts / constructor option / "
@@ -51,6 +52,11 @@ ASSUMPTIONS = [
     "because the strawberryfields writer produced it",
     "refsim back-stop: affine maps equal within 1e-9 relative; skipped for non-Gaussian programs, unconditioned "
     "measurements and non-finite intermediate values",
+    "the source program is evaluated completely before anything is loaded and sympy's caches are cleared at the start of "
+    "every case (symbols are shared by name across Programs, F7)",
+    "an empty program (no commands after compilation) is not written: both readers document ValueError for it",
+    "run options are only generated together with a compile target (Blackbird has no place for them otherwise); "
+    "generate_code is only given uncompiled programs and eng=None",
 ]
 REQUIRED_LABELS = {"all": ["w:blackbird", "w:xir", "w:code", "tdm", "dagger", "sym:free", "sym:meas", "array_param", "select",
                            "dark_counts", "ctor_option", "compiled", "path:file", "path:string", "complex_param",
@@ -225,6 +231,8 @@ def build_program(case):
             kw = {} if t.get("shift", "default") == "default" else {"shift": t["shift"]}
             with prog.context(*[list(a) for a in t["arrays"]], **kw) as (p, q):
                 _apply_ops(prog, q, case["ops"], tdm_sym=lambda i: p[i])
+            if case.get("tdm_shots"):
+                prog.run_options["shots"] = int(case["tdm_shots"])
         else:
             prog = sf.Program(case["n"])
             with prog.context as q:
@@ -467,6 +475,9 @@ def compare_cmd(w, k, a, b, info):
             elif w == "blackbird" and pa["kind"] == "sym" == pb["kind"] and pa["text"].startswith("-") and "**" in pa["text"] \
                     and all(isinstance(x, np.ndarray) and isinstance(y, np.ndarray) and same_val(x, -y) for x, y in zip(pa["vals"], pb["vals"])):
                 sig = "io.sign_flipped.blackbird.negated_power"  # blackbird parses -x**2 as (-x)**2
+            elif cls == "Gaussian" and j == 0 and info.get("hbar", 2.0) != 2.0 and pa["kind"] == "num" == pb["kind"] \
+                    and isinstance(pa["vals"][0], np.ndarray) and same_val(pa["vals"][0] * (2.0 / info["hbar"]), pb["vals"][0]):
+                sig = "io.gaussian_cov_rescaled_by_hbar.%s" % w  # p[0] is V / (hbar/2); the reader divides once more
             elif pa["kind"] == "sym" and pb["kind"] == "num" and info.get("prebound") and same_val(pa["vals"][0], pb["vals"][0]):
                 sig = "io.bound_param_evaluated.%s" % w
             elif w == "code" and pa["kind"] == "str":
@@ -710,12 +721,32 @@ def case_labels(case, tags):
         labs.append("tdm")
     if case.get("near_pi12"):
         labs.append("near_pi12")
+    if case.get("hbar", 2.0) != 2.0:
+        labs.append("hbar_not_2")
     return labs
 
 
 def check_rt(ctx, case):
-    """the round-trip oracle for all three writers"""
+    """the round-trip oracle for all three writers (under the hbar of the case, default 2)"""
+    from vf import sfrun
+
+    with sfrun.HbarCtx(float(case.get("hbar", 2.0))):
+        return _check_rt(ctx, case)
+
+
+def _fresh_sympy():
+    """sympy caches symbols and expressions by value in independent LRU caches; strawberryfields' MeasuredParameter carries
+    its RegRef as hidden state (F7), so an expression cached by an earlier case can bring a stale RegRef into a new program
+    ('RegRef state has become inconsistent').  Every case starts from empty caches: cases are independent of each other."""
+    from sympy.core.cache import clear_cache
+
+    clear_cache()
+
+
+def _check_rt(ctx, case):
     from strawberryfields.program_utils import CircuitError
+
+    _fresh_sympy()
 
     w = case["ir"]
     is_tdm = bool(case.get("tdm"))
@@ -749,7 +780,7 @@ def check_rt(ctx, case):
     # ---- everything about the source is read BEFORE anything is loaded (symbols are shared by name, F7)
     src = snapshot(prog, binds, meas)
     src_specs = None if is_tdm else _specs(prog, binds[0], meas[0])
-    info = {"tdm": is_tdm, "prebound": bool(case.get("prebind")),
+    info = {"tdm": is_tdm, "prebound": bool(case.get("prebind")), "hbar": float(case.get("hbar", 2.0)),
             "kw": {} if comp else {k: sorted((o[3] if len(o) > 3 else {}).get("kw", {})) for k, o in enumerate(case["ops"])}}
     if case.get("prebind"):
         prog.bind_params({k: v for k, v in binds[0].items() if k in prog.free_params})
@@ -897,12 +928,29 @@ def class_cases(ctx):
             if tag == "free_bound":
                 case["prebind"] = True
             yield case
+    for w in ("blackbird", "xir"):
+        yield {"n": 2, "ops": [["Gaussian", [M(_V2 / 2), {"vec": [0.1, 0.2, 0.3, 0.4]}], [1, 0]], ["Xgate", [0.3], [0]]], "ir": w, "path": "string",
+               "bind": BIND0, "meas": MEAS0, "hbar": 1.0, "tag": "Gaussian_hbar_1"}
+        yield {"n": 2, "ops": [["Xgate", [0.3], [0]], ["Zgate", [0.1], [1]], ["Coherent", [0.3, 0.1], [1]], ["MeasureHomodyne", [0.2], [1], {"select": 0.1}]], "ir": w,
+               "path": "string", "bind": BIND0, "meas": MEAS0, "hbar": 0.5, "tag": "hbar_sensitive_ops_hbar_0.5"}
     # compiled programs: target, run options, backend options
     for w in ("blackbird", "xir"):
         for comp in ({"compiler": "fock", "shots": 5, "cutoff_dim": 7}, {"compiler": "gaussian", "shots": 3}, {"compiler": "gaussian"},
                      {"compiler": "gaussian", "shots": 2, "crop": True}):
             yield {"n": 2, "ops": [["Sgate", [0.3], [0]], ["BSgate", [], [0, 1]], ["MeasureFock", [], [0, 1]]], "ir": w, "path": "file",
                    "bind": BIND0, "meas": MEAS0, "compile": comp, "tag": "compiled"}
+
+
+def pi_grid_cases(ctx):
+    """generate_code: every multiple k*pi/12, |k| <= 30, with every offset of OFFS, as gate parameter and as per-bin value"""
+    for k in range(-30, 31):
+        vals = sorted({k * PI / 12 + off for off in OFFS})
+        ops_ = [[["Rgate", "Zgate", "Xgate"][i % 3], [v], [0]] for i, v in enumerate(vals)] + [["BSgate", [vals[0], vals[-1]], [1, 0]]]
+        yield {"n": 2, "ops": ops_, "ir": "code", "path": "string", "bind": BIND0, "meas": MEAS0, "near_pi12": True, "tag": "pi_grid"}
+        yield {"n": 2, "tdm": {"N": [2], "arrays": [vals, vals[::-1]], "shift": "default", "N_as_list": False},
+               "ops": [["Sgate", [0.5, ["tdm", 0]], [1]], ["BSgate", [["tdm", 1], vals[len(vals) // 2]], [0, 1]], ["MeasureHomodyne", [["tdm", 0]], [0]]],
+               "ir": "code", "path": "string", "bind": [{"p0": 0.5, "p1": 0.7}, {"p0": 1.1, "p1": 0.2}, {"p0": 0.3, "p1": 1.9}], "meas": MEAS0,
+               "near_pi12": True, "tag": "pi_grid_tdm"}
 
 
 # ---------------------------------------------------------------------------------------------
@@ -1198,6 +1246,8 @@ def rt_case(draw, writers=("blackbird", "xir")):
     case = _finish(draw, n, ops_, list(writers))
     if hz:
         case["hazard"] = hz
+    if draw(st.integers(0, 7)) == 0 or (hz == "Gaussian" and draw(st.booleans())):
+        case["hbar"] = draw(st.sampled_from([1.0, 0.5, 3.0]))
     free_used = any(("free", nm) in ast_atoms(p) for o in ops_ for p in o[1] for nm in ("a", "b"))
     if free_used and draw(st.integers(0, 2)) == 0:
         case["prebind"] = True
@@ -1268,7 +1318,7 @@ def tdm_case(draw):
                             "N_as_list": draw(st.booleans())},
             "ops": ops_, "ir": w, "path": "string" if w == "code" else draw(st.sampled_from(["string", "file"])),
             "bind": [{"p%d" % j: draw(vals) for j in range(na)} for _ in range(3)], "meas": [[0.5] * (n + 1)] * 3}
-    if draw(st.integers(0, 3)) == 0 and w != "code":
+    if draw(st.integers(0, 3)) == 0 and w == "xir":  # blackbird has no place for run options without a target
         case["tdm_shots"] = draw(st.sampled_from([1, 7]))
     if any(_is_near(x) for a in arrays for x in a) or any(_is_near(p) for o in ops_ for p in o[1]):
         case["near_pi12"] = True
@@ -1281,6 +1331,8 @@ def tdm_case(draw):
 def selftest():
     refsim.selftest()
     import strawberryfields as sf
+
+    _fresh_sympy()
 
     # AST -> front-end expression evaluates to the independent python value
     ast = ["add", ["mul", 2.5, ["fn", "sin", ["free", "a"]]], ["div", ["meas", 1], 3]]
@@ -1322,6 +1374,8 @@ SUBS = [
         rule="TDMPrograms with per-bin arrays (N, arrays, shift, loop-variable expressions) through all three writers"),
     Sub("op_classes", check=check_rt, enumerate=class_cases, exhaustive=True, shards={"quick": 1, "thorough": 1},
         rule="one small program per operation class variant of ops.__all__ (and shorthand) x writer; compiled option sets"),
+    Sub("codegen_pi_grid", check=check_rt, enumerate=pi_grid_cases, exhaustive=True, shards={"quick": 1, "thorough": 1},
+        rule="generate_code on every k*pi/12 (|k| <= 30) x 14 offsets within 1e-5, as gate parameters and as TDM per-bin values"),
 ]
 
 MANIFEST = {
